@@ -9,6 +9,21 @@ TB_COMMON = [
 PROPS = {
     "C05": {
         "theorems": [
+            ("Mc.Props.C05", "Mc.C05.C05_idempotent"),
+            ("Mc.Props.C05", "Mc.C05.C05_idempotent_inputs"),
+            ("Mc.Props.C05", "Mc.C05.C05_result_hyp"),
+            ("Mc.Props.C05", "Mc.C05.C05_self_merge"),
+            ("Mc.Props.C05", "Mc.C05.C05_idempotent_null_counterexample"),
+            ("Mc.Props.C05", "Mc.C05.C05_idempotent_keyswitch_counterexample"),
+            ("Mc.Props.C05", "Mc.C05.C05_idempotent_scalarKeys_needed"),
+            ("Mc.Props.C05", "Mc.C05.C05_clash_error"),
+            ("Mc.Props.C05", "Mc.C05.C05_ok_no_clash"),
+            ("Mc.Props.C05", "Mc.C05.C05_contains"),
+            ("Mc.Props.C05", "Mc.C05.C05_laws"),
+            ("Mc.Props.C05", "Mc.C05.C05_removed_top"),
+            ("Mc.Props.C05", "Mc.C05.C05_preserved_top"),
+            ("Mc.Props.C05", "Mc.C05.C05_merge_wf"),
+            ("Mc.Props.C05", "Mc.C05.C05_eqv_refl"),
             ("Mc.Props.C05", "Mc.C05.merge_scalar_dest"),
             ("Mc.Props.C05", "Mc.C05.C05_clash_error_top"),
         ],
